@@ -39,6 +39,14 @@ func main() {
 				job.IntBound = v
 				continue
 			}
+			if a == "--abstract" {
+				job.Abstract = true
+				continue
+			}
+			if a == "--nlsat" {
+				job.Nlsat = true
+				continue
+			}
 			if a == "--combine" {
 				job.Combine = true
 				continue
@@ -95,6 +103,11 @@ func main() {
 					fmt.Printf("  %-7s %-40s %-8s %5d ms path=%v model: %v %s\n", o.Kind, o.Label, o.Status, o.Ms, o.Path, o.Model, o.Detail)
 				}
 			}
+			if os.Getenv("GOSMT_TIMES") != "" {
+				for _, o := range jr.Oblig {
+					fmt.Printf("  T %6d ms %-8s %-7s %-30s nodes=%d path=%v solver=%s\n", o.Ms, o.Status, o.Kind, o.Label, o.Size, o.Path, o.Solver)
+				}
+			}
 			fmt.Println("funcs:", strings.Join(jr.Funcs, " "))
 			return
 		}
@@ -105,6 +118,9 @@ func main() {
 			}
 		}
 		fmt.Println("funcs:", strings.Join(jr.Funcs, " "))
+		if jr.B1 != nil {
+			fmt.Printf("B1 monitor: %d float ops in repo code, max result bound %d bits (inputs 2^%d), unbounded %d, over 2^53: %v\n", jr.B1.Ops, jr.B1.MaxBits, jr.B1.InputBits, jr.B1.Unknown, jr.B1.Over)
+		}
 	case "ssa":
 		l, err := loadProgram(nil)
 		if err != nil {
